@@ -263,7 +263,7 @@ def run_memory(case, res, stats):
     config = case["config"]
     mem, wps, rps = c11.build(config)
     domains = [DomainSpec(d["name"], edge=d["edge"], async_reset=d.get("async", False)) for d in config["domains"]]
-    run = ManualRun(mem, domains, sched_mode=case["sched"]["mode"], sched_seed=case["sched"]["seed"])
+    run = ManualRun(c11.with_decoy(config, mem), domains, sched_mode=case["sched"]["mode"], sched_seed=case["sched"]["seed"])
     top = run.top
     sig = {}
     for i, p in enumerate(wps):
